@@ -111,6 +111,15 @@ def invariants(root, label, res, case, *, shape, expect_deferred_alias=None):
             if isinstance(d, tuple) and d and d[0] == "<unresolvable>":
                 res.violation(f"C09/I8-deferred-denotes/{shape}/unresolvable", f"deferred node {n!r} cannot be resolved ({label})", case)
                 continue
+            # I8b: the unwrapped side of a deferred node (what the lazy routine resolves) denotes the same type
+            if type(n.unwrapped) is typing.ForwardRef:
+                ue = call(refs.evaluate, n.unwrapped)
+                ud = inspection.unwrap(d)
+                if type(ud) is typing.ForwardRef:  # a string-valued alias: its body
+                    r2 = call(refs.evaluate, ud)
+                    ud = r2.val if r2.ok else ud
+                if not ue.ok or not (_eq(ue.val, d) or _eq(ue.val, ud)):
+                    res.violation(f"C09/I8-deferred-denotes/{shape}/unwrapped-side", f"deferred node {n!r}: its unwrapped reference resolves to {ue!r}, the node denotes {d!r} ({label})", case)
             # I7: a revisit - its denoted type is the (un-deferred) type of another node
             if not any(j != i and not m.cyclic and (_eq(m.type, d) or _eq(m.unwrapped, d)) for j, m in enumerate(nodes)):
                 res.violation(f"C09/I7-flagged-is-revisit/{shape}", f"node {n!r} is flagged cyclic but denotes {d!r}, which is no other node of static_order({label})", case)
@@ -271,6 +280,29 @@ class Wrapped:
     a: NT1
     b: VAlias
     c: typing.Final[int] = 0
+TV = typing.TypeVar("TV")
+@dataclasses.dataclass
+class Link(typing.Generic[TV]):
+    v: int = 0
+    nxt: typing.Optional["Link"] = None
+@dataclasses.dataclass
+class GNode(typing.Generic[TV]):
+    item: TV = None
+    kids: list["GNode"] = dataclasses.field(default_factory=list)
+@dataclasses.dataclass
+class SharesG:
+    a: Link
+    b: Link
+    c: list[Link]
+    d: GNode
+class HasLen(typing.Protocol):
+    def __len__(self) -> int: ...
+@dataclasses.dataclass
+class ProtoNode(HasLen):
+    v: int = 0
+    nxt: typing.Optional["ProtoNode"] = None
+    def __len__(self):
+        return 0
 def call1(f, *a, **k):
     return f(*a, **k)
 def call2(f, *a, **k):
@@ -287,7 +319,7 @@ def run_special(res):
     ns = prelude.mkmod("tlg_c09_special", SPECIAL).__dict__
     res.programs += 1
     case = {"kind": "special"}
-    for nm in ("Outer.Inner", "UsesNested", "HasAlias", "Wrapped", "RecAlias", "StrAlias"):
+    for nm in ("Outer.Inner", "UsesNested", "HasAlias", "Wrapped", "RecAlias", "StrAlias", "Link", "GNode", "SharesG", "ProtoNode"):
         root = eval(nm, ns)  # noqa: S307
         for form in ("cls", "list", "dict"):
             r = {"cls": root, "list": list[root], "dict": dict[str, root]}[form]
